@@ -49,3 +49,9 @@ pub fn vx_to_string<T: VxDisplay>(x: &T) -> (r: String)
 impl<T: VxDisplay> VxDisplay for &T {
     open spec fn display_spec(&self) -> Seq<char> { (**self).display_spec() }
 }
+
+/// R-chain: `opt.map(|s| s.to_string())`
+#[verifier::external_body]
+pub fn vx_opt_to_string<T: VxDisplay>(o: Option<T>) -> (r: Option<String>)
+    ensures match o { Some(x) => r is Some && r->Some_0@ == x.display_spec(), None => r is None }
+{ unimplemented!() }
